@@ -517,6 +517,27 @@ func rebuild(t *Term, args []*Term) *Term {
 		if len(args) == 2 {
 			return Mul(args[0], args[1])
 		}
+	case "bvadd":
+		return Add(args[0], args[1])
+	case "bvsub":
+		return Sub(args[0], args[1])
+	case "bvmul":
+		return Mul(args[0], args[1])
+	case "bvsle", "bvslt", "bvsge", "bvsgt", "bvule", "bvult", "bvuge", "bvugt":
+		if args[0].IsConst() && args[1].IsConst() {
+			a, b := new(big.Int).Set(args[0].C), new(big.Int).Set(args[1].C)
+			if t.Op[2] == 's' {
+				w := args[0].S.W
+				if a.Cmp(Pow2(w-1)) >= 0 {
+					a.Sub(a, Pow2(w))
+				}
+				if b.Cmp(Pow2(w-1)) >= 0 {
+					b.Sub(b, Pow2(w))
+				}
+			}
+			op := map[string]string{"le": "<=", "lt": "<", "ge": ">=", "gt": ">"}[t.Op[3:]]
+			return BoolC(cmpConst(op, a, b))
+		}
 	case "div":
 		return Div(args[0], args[1])
 	case "mod":
